@@ -36,8 +36,8 @@ def main(argv):
         if what == "setup":
             t = common.build_sim(("simtools", "miri_threads"))
             log("built sim workspace in %.1fs" % t)
-            t = common.build_cli()
-            log("built peginator-cli in %.1fs" % t)
+            t = common.build_cli() + common.build_cli(release=True)
+            log("built peginator-cli (dev and release profile) in %.1fs" % t)
             import c16
             import mirisched
             m = c16.macro_route_check(seed, "quick")
@@ -64,6 +64,8 @@ def main(argv):
         if what in ("C15", "C16", "C18"):
             common.build_sim(("simtools",))
             common.build_cli()
+            if what == "C16":
+                common.build_cli(release=True)
             import procsim
             return procsim.run_check(what, tier, seed, replay)
         return usage()
